@@ -72,6 +72,15 @@ FORMS = [
     ("comment_in_args", "fn f(x, y){ x + y }\nfn dsp(){ f( /* first */ 1.0, // second\n 2.0 ) }\n"),
     ("comment_before_close_brace", "fn f(x){\n  let y = x * 2.0\n  y\n/* end of f */ }\nfn dsp(){ f(1.0) }\n"),
     ("comment_before_open_brace", "fn dsp()\n/* body */ {\n  1.0\n}\n"),
+    # a comment attached to the trailing comma of a list, with a postfix operator or another comment behind the list
+    ("trailing_comma_comment_call_postfix", "fn f(a, b){ |x| x + a + b }\nfn dsp(){ f(1.0, 2.0, // c\n)(3.0) }\n"),
+    ("trailing_comma_comment_tuple_proj", "fn dsp(){ (1.0, 2.0, // c\n).0 }\n"),
+    ("trailing_comma_comment_array_index", "fn dsp(){ [1.0, 2.0, // c\n][0] }\n"),
+    ("trailing_comma_two_comments", "fn f(a){ a }\nfn dsp(){ f(1.0, /* 1 */ ) /* 2 */\n}\n"),
+    ("trailing_comma_comment_params", "fn f(a, b, // last\n){ a + b }\nfn dsp(){ f(1.0, 2.0) }\n"),
+    ("trailing_comma_block_comment_postfix", "fn dsp(){ (1.0, 2.0, /* c */ ).0 }\n"),
+    ("trailing_comma_plain_postfix", "fn dsp(){ (1.0, 2.0, ).0 }\n"),
+    ("comment_after_close_paren_postfix", "fn dsp(){ (1.0, 2.0) /* c */ .0 }\n"),
     ("comment_before_lambda_comma", "fn dsp(){ let g = |a\n/* between */ , b| a + b\n g(1.0, 2.0) }\n"),
     ("comment_before_record_comma", "fn dsp(){ let r = {a = 1.0\n/* between */ , b = 2.0}\n r.a + r.b }\n"),
     ("comment_before_macro_comma", "#stage(macro)\nfn two(p, q){ `{ $p + $q } }\n#stage(main)\nfn dsp(){ two!(`1.0\n/* between */ , `2.0) }\n"),
